@@ -267,7 +267,12 @@ def selftest(tier: str) -> int:
 
     results = []
 
+    import os
+    only = os.environ.get("VERIF_MUTANT", "")
+
     def attempt(name, apply, undo):
+        if only and only not in name:
+            return
         for c in (ga.LEBEDEV_CACHE, ga.SPHERICAL_CACHE, ga.MAX_DET_CACHE, ga.AHRENS_BEYLKIN_CACHE):
             c.clear()
         apply()
@@ -338,10 +343,10 @@ def selftest(tier: str) -> int:
     # 6. duplicated last point (size off by one)
     def load6(degree, size, method):
         p, w = orig_load(degree, size, method)
-        if method == "ahrens_beylkin" and degree == 20:
+        if method == "ahrens_beylkin" and degree == 19:
             p = np.vstack([p, p[-1:]]); w = np.append(w, 0.0)
         return p, w
-    attempt("ahrens-beylkin-20-extra-zero-weight-point", lambda: set_load(load6), lambda: set_load(orig_load))
+    attempt("ahrens-beylkin-19-extra-zero-weight-point", lambda: set_load(load6), lambda: set_load(orig_load))
 
     # 7. weights of one file wrong only in a top-degree component: w_i (1 + 1e-5 sqrt(4 pi) Y_{22,0}(p_i))
     #    (lower harmonics still integrate to ~1e-7; only a check up to the FULL advertised degree sees 1e-5)
